@@ -112,11 +112,11 @@ class _Case:
     def _pid(self, idx):
         """parent id for a source index: existing ids first, then fresh ones"""
         i = idx % (self.n_p + 1) + 1
-        return i if i <= self.n_p else -i  # fresh explicit keys are negative: clear of the max(id)+1 that PK-less objects receive
+        return i if i <= self.n_p else -1000 * i  # fresh explicit keys: negative and spaced, clear of the max(id)+1 that PK-less objects receive
 
     def _cid(self, idx):
         i = idx % (self.n_c + 2) + 1
-        return i if i <= self.n_c else -i
+        return i if i <= self.n_c else -1000 * i
 
     def _mk_child(self, spec):
         fam = self.fam
